@@ -176,6 +176,42 @@ def monitor(ctx, extended=False):
             want = oracle_heads(pl, Q)
             if not heads_close(got, want):
                 ctx.violation(f'after {log} the heads {got} differ from the sum of the parts with the new slurry {want}', {'pipeline': desc, 'Q': Q, 'log': log}, key='propagation')
+            # the same flow asked again after a section or pump was edited in place (the project's tests edit sections like this): the head is the
+            # sum over the sections AS THEY ARE NOW
+            pipes = [x for x in pl.pipesections if isinstance(x, Pipe) and x.length > 0]
+            pumps = [x for x in pl.pipesections if not isinstance(x, Pipe)]
+            kind = ctx.rng.choice(['length', 'K', 'elev', 'speed', 'trim'])
+            if kind == 'length' and pipes:
+                ctx.rng.choice(pipes).length *= ctx.rng.choice([0.5, 1.7, 2.5])
+            elif kind == 'K' and pipes:
+                ctx.rng.choice(pipes).total_K += 1.0
+            elif kind == 'elev' and pipes:
+                ctx.rng.choice(pipes).elev_change += ctx.rng.choice([-3.0, 2.0, 5.0])
+            elif kind == 'speed' and pumps:
+                q = ctx.rng.choice(pumps)
+                q.current_speed = q.current_speed * 0.9
+            elif kind == 'trim' and pumps:
+                q = ctx.rng.choice(pumps)
+                q.current_impeller = q.current_impeller * 0.95
+            ctx.count('evaluations')
+            got2, want2 = pl.calc_system_head(Q), oracle_heads(pl, Q)
+            if not heads_close(got2, want2):
+                ctx.violation(f'after an in-place edit ({kind}) the heads at the same flow {got2} differ from the sum of the parts {want2}',
+                              {'pipeline': G.describe(pl), 'Q': Q, 'log': log + [f'heads at Q, then in-place edit: {kind}, then heads at Q again']}, key='sum-of-parts-history')
+            # the same section objects (pumps included) used by a second pipeline with another slurry: each pipeline reports its own heads
+            p2 = dict(pl.slurry._params)
+            p2.update(Cv=E.pick_Cv(ctx.rng), rhos=ctx.rng.choice([2.65, 3.0, 3.4]))
+            p2['Dp'] = pl.slurry.Dp
+            s3 = E.make_slurry(p2)
+            s3._params = p2
+            pl_b = Pipeline(pipe_list=list(pl.pipesections), slurry=s3)
+            for which, line in (('second', pl_b), ('first', pl), ('second', pl_b)):
+                ctx.count('evaluations')
+                g, w = line.calc_system_head(Q), oracle_heads(line, Q)
+                if not heads_close(g, w):
+                    ctx.violation(f'two pipelines share their section objects: the {which} one reports {g}, the sum of its parts with its own slurry is {w}',
+                                  {'pipeline': G.describe(pl), 'Q': Q, 'second_slurry': p2, 'log': log}, key='shared-sections')
+                    break
         except Exception as e:   # noqa
             ctx.violation(f'raised {type(e).__name__}: {e}', {'pipeline': desc}, key='raised')
     ctx.stats['distinct_nontrivial'] = nontrivial
